@@ -16,7 +16,12 @@ TUNE = ["-DURCU_VERIF", "-DURCU_VERIF_MIN_PARTITION_PER_THREAD_ORDER=5", "-DURCU
 LIBSRC = [("urcu.c", ["-DRCU_MB"]), ("urcu-pointer.c", []), ("wfcqueue.c", []), ("wfstack.c", []), ("compat_arch.c", []),
           ("compat_futex.c", []), ("workqueue.c", []), ("rculfhash.c", []), ("rculfhash-mm-order.c", []), ("rculfhash-mm-chunk.c", []),
           ("rculfhash-mm-mmap.c", [])]
-TARGETS = {"lfht_fuzz": dict(src="lfht_fuzz.cc", lib=True, csrc=["lfht_glue.c"])}
+TARGETS = {"lfht_fuzz": dict(src="lfht_fuzz.cc", lib=True, csrc=["lfht_glue.c"]),
+           "uat_fuzz": dict(src="uat_fuzz.cc", lib=False, uat=True, flags=["-I" + FZ])}
+# C20: the same instantiation file built eight ways (implementation x language x compiler)
+UAT_VARIANTS = [("asm_c", "clang", "c", []), ("asm_cxx", "clang", "c++", []), ("bi_c", "clang", "c", ["-DCONFIG_RCU_USE_ATOMIC_BUILTINS"]),
+                ("bi_cxx", "clang", "c++", ["-DCONFIG_RCU_USE_ATOMIC_BUILTINS"]), ("gasm_c", "gcc", "c", []), ("gasm_cxx", "gcc", "c++", []),
+                ("gbi_c", "gcc", "c", ["-DCONFIG_RCU_USE_ATOMIC_BUILTINS"]), ("gbi_cxx", "gcc", "c++", ["-DCONFIG_RCU_USE_ATOMIC_BUILTINS"])]
 
 
 def input_hash(name):
@@ -50,6 +55,10 @@ def build(name):
     if t.get("lib"):
         for src, fl in LIBSRC:
             jobs.append(["clang", "-fsanitize=fuzzer-no-link"] + SAN + COMMON + TUNE + fl + ["-c", os.path.join(REPO, "src", src), "-o", os.path.join(tmp, src[:-2] + ".o")])
+    if t.get("uat"):
+        for pfx, cc, lang, fl in UAT_VARIANTS:
+            jobs.append([cc, "-x", lang, "-O2" if cc == "gcc" else "-O1", "-g", "-D_GNU_SOURCE", "-I" + CFG, "-I" + FZ, "-I" + os.path.join(REPO, "include"), "-w",
+                         "-DPFX=" + pfx] + fl + ["-c", os.path.join(FZ, "uat_impl.c"), "-o", os.path.join(tmp, "uat_" + pfx + ".o")])
     for c in t.get("csrc", []):
         jobs.append(["clang", "-fsanitize=fuzzer-no-link"] + SAN + COMMON + TUNE + ["-c", os.path.join(FZ, c), "-o", os.path.join(tmp, "x_" + c[:-2] + ".o")])
     jobs.append(["clang++", "-std=gnu++17", "-fsanitize=fuzzer-no-link"] + SAN + COMMON + TUNE + t.get("flags", []) + ["-c", os.path.join(FZ, t["src"]), "-o", os.path.join(tmp, "target.o")])
